@@ -41,6 +41,10 @@ type dohRT struct {
 }
 
 func (rt *dohRT) RoundTrip(req *http.Request) (*http.Response, error) {
+	// a real transport takes locks / hands the request to a connection goroutine
+	// before the URL is serialised: a scheduling point between the caller's
+	// preparation of the request and the moment its URL is read
+	vs.Point("doh.rt.enter", unsafe.Pointer(rt))
 	q := req.URL.Query().Get("dns")
 	wire, err := base64.RawURLEncoding.DecodeString(q)
 	if err != nil {
